@@ -252,6 +252,8 @@ def batch_task(family, texts, stdin_text):
         o0 = interp[k]
         to = LOOP_TIMEOUT if o0.kind == 'budget' else (5 if st.n.get('unexpected_timeouts', 0) < 3 else 0.5)
         r, out, err = run_exe(args, stdin, to)
+        if len(st.samples) < 3 and len(texts[k]) < 200:
+            st.sample({'prog': texts[k], 'level': lv, 'interpreted': '%s %s' % (o0.kind, o0.status), 'stdout': out[:40].decode('utf-8', 'replace')})
         if r == 'timeout' and o0.kind != 'budget':
             st.inc('unexpected_timeouts')
         st.inc('runs')
